@@ -106,9 +106,17 @@ func (i *interpreter) symEquals(t types.Type, x, y value) *Term {
 		return i.symEquals(a.t, a.v, b.v)
 	}
 	if isSymOrStr(x) || isSymOrStr(y) {
-		if _, ok := x.(symStr); ok {
-			if x == y {
-				return tc.True()
+		if sx, ok := x.(symStr); ok {
+			if sy, ok := y.(symStr); ok {
+				if sx.id == sy.id {
+					return tc.True()
+				}
+				if sx.kind == "int" && sy.kind == "int" {
+					return tc.Eq(sx.t, sy.t)
+				}
+				if sx.kind == "hex" && sy.kind == "hex" {
+					return i.elemsEqual(sx.bytes, sy.bytes)
+				}
 			}
 			panic(unsupported("comparison of an opaque string"))
 		}
